@@ -34,13 +34,14 @@ def gen_dag(rng):
         # a merged signed tag leaves a mergetag header whose continuation lines may quote `parent <id>` of ANY commit: the
         # deepest one so far is quoted, which is never a parent line of this commit
         quoted = [commits[-1]] if commits and rng.random() < 0.25 else []
-        commits.append(s.add({"kind": "commit", "tree": t, "parents": ps, "date": date, "msg": b"c%d\n" % i, "quoted": quoted}))
+        commits.append(s.add({"kind": "commit", "tree": t, "parents": ps, "date": date, "msg": b"c%d\n" % i, "quoted": quoted,
+                              "upper": rng.random() < 0.15}))
     for i in rng.sample(commits, min(len(commits), rng.randrange(1, 4))):
         s.refs.append((b"refs/heads/b%d" % i, i))
     # a tag forest
     tags = []
     for i in range(rng.randrange(0, 6)):
-        tags.append(s.add({"kind": "tag", "target": rng.choice(commits + tags + tags), "name": b"v%d" % i}))
+        tags.append(s.add({"kind": "tag", "target": rng.choice(commits + tags + tags), "name": b"v%d" % i, "upper": rng.random() < 0.2}))
     for i, g in enumerate(tags):
         if rng.random() < 0.7 or i == len(tags) - 1:
             s.refs.append((b"refs/tags/t%d" % i, g))
